@@ -13,6 +13,12 @@ CLAIMED = {
     'C03': ('DESIGN.md 4 C03', E1,
             'Answer sets, per-answer additionals, TTLs and flush marking of QueryHandler.async_response equal a declarative reference responder for every enumerated (registry script, questions, known answers) shape, for all service TTLs 1..2^31-1 and known-answer TTLs 0..2^32-1 (half-TTL boundary solver-decided).',
             'Trusted: as C05 plus the reference responder in vkit/responder.py. Question types and names are enumerated, not symbolic.'),
+    'C09': ('DESIGN.md 4 C09', E1,
+            'Probe schedule and contents, conflict outcome (exception / first free -N), announcement schedule, record set, TTLs and flush marking of the real async_register_service coroutine for all start instants, service TTLs, conflict arrival offsets 0..1000 ms and conflict TTLs, over enumerated address mixes / taken-name chains.',
+            'Trusted: as C05 plus asyncio.timeout/Event/sleep running on the fake loop. A conflict arriving exactly at the last check instant is accepted either way.'),
+    'C10': ('DESIGN.md 4 C10', E1,
+            'Start-up schedule, justification of every refresh query, the minimum spacing, "no record more than delay overdue" and timer liveness after every timer step of the real QueryScheduler, for all learn instants (between enumerated timers), TTLs 1..2^31-1 and the start-up draw; up to three records / two types.',
+            'Trusted: as C05; the per-record refresh chain model in props/c10.py; float sites 0.1*ttl and the 1e-6 clock resolution treated as exact reals (lemmas listed in the evidence).'),
     'C11': ('DESIGN.md 4 C11', E1,
             'Destination, socket, id, flags, question echo and answer sets of the unicast / immediate multicast / delayed multicast transmissions for one query (<= 2 questions, QU/QM, probe) match the statement for every source port 0..65535, query id, sighting age and cached TTL; header id, flags, counts and class words of the real packets() read back through value-carrying packer stand-ins for symbolic id / class / flush bit.',
             'Trusted: as C05; packer stand-ins (vkit/wire.py) preserve widths and values. One registered service, IPv4 sockets only.'),
